@@ -45,12 +45,12 @@ func (in inst) build(rc *rec) operands {
 		o.r = t.build(rc.R.K, rc.R.Rows, rc.R.Cols, rc.R.C, rc.R.St, constRecv)
 	}
 	if in.ak != "-" {
-		o.a = t.build(in.ak, rc.A.Rows, rc.A.Cols, rc.A.C, rc.A.Reps[in.ak], in.constOp)
+		o.a = t.buildX(in.ak, rc.A.Rows, rc.A.Cols, rc.A.C, rc.A.F, rc.A.Reps[in.ak], in.constOp)
 	}
 	if in.bk != "-" {
-		o.b = t.build(in.bk, rc.B.Rows, rc.B.Cols, rc.B.C, rc.B.Reps[in.bk], in.constOp)
+		o.b = t.buildX(in.bk, rc.B.Rows, rc.B.Cols, rc.B.C, rc.B.F, rc.B.Reps[in.bk], in.constOp)
 	}
-	o.s = t.elem(rc.S[0], rc.S[1])
+	o.s = t.elemX(rc.S[0], rc.S[1], rc.Sf)
 	return o
 }
 
@@ -283,6 +283,30 @@ func sameOutcome(a, b outcome) bool {
 	return true
 }
 
+// classifySpecialDiff names the one known shape of a divergence on special
+// operands (the concrete method wrote a plain 0 where the generic one computed
+// NaN from a zero and an Inf/NaN); everything else is "differ_special".
+func classifySpecialDiff(gen, conc outcome) string {
+	if gen.panicMsg != "" || conc.panicMsg != "" || len(gen.content) != len(conc.content) || len(gen.content) == 0 ||
+		gen.boolRet != conc.boolRet {
+		return "differ_special"
+	}
+	n := 0
+	for i := range gen.content {
+		if sameF(gen.content[i].V, conc.content[i].V) && sameF(gen.content[i].D, conc.content[i].D) {
+			continue
+		}
+		if !(gen.content[i].V != gen.content[i].V && conc.content[i].V == 0) {
+			return "differ_special"
+		}
+		n++
+	}
+	if n == 0 {
+		return "differ_special"
+	}
+	return "differ_special_concrete_zero_generic_nan"
+}
+
 func sameF(x, y float64) bool { return x == y || (x != x && y != y) }
 
 func recvClass(rc *rec) string {
@@ -306,6 +330,22 @@ type stats struct {
 	sigCount  map[string]int
 	mism      int
 	recvKinds map[string]int
+	bothDev   map[string]int // special operands: generic = concrete, but not the class the specification prints (information)
+	bothDevEx map[string]vh.M
+}
+
+// bothDeviate records a special-operand case in which generic and concrete agree
+// with each other but not with the class demanded by the IEEE algebra of the
+// specification: C09 (interchangeability) holds, the absolute value is the
+// business of C02/C03.  Information only.
+func bothDeviate(st *stats, sig vh.M, detail vh.M) {
+	b, _ := json.Marshal(sig)
+	st.mu.Lock()
+	st.bothDev[string(b)]++
+	if _, ok := st.bothDevEx[string(b)]; !ok && len(st.bothDevEx) < 40 {
+		st.bothDevEx[string(b)] = detail
+	}
+	st.mu.Unlock()
 }
 
 type only struct {
@@ -320,7 +360,8 @@ func replay(args []string) {
 	mode := args[2]
 	out := vh.NewOut(args[1])
 	defer out.Close()
-	st := &stats{byOp: map[string]int{}, pairs: map[string]bool{}, sigCount: map[string]int{}, recvKinds: map[string]int{}}
+	st := &stats{byOp: map[string]int{}, pairs: map[string]bool{}, sigCount: map[string]int{}, recvKinds: map[string]int{},
+		bothDev: map[string]int{}, bothDevEx: map[string]vh.M{}}
 	var flt *only
 	if s := os.Getenv("VERIF_ONLY"); s != "" { // replay of one stored violation: type,ak,bk,const
 		p := strings.Split(s, ",")
@@ -404,7 +445,7 @@ func replay(args []string) {
 	sort.Strings(pairs)
 	vh.Summary(out, vh.M{"records": st.records, "cases": st.cases, "concrete_cases": st.concrete, "scalar_cases": st.scalar,
 		"mismatches": st.mism, "by_op": st.byOp, "pairs": pairs, "sig_counts": st.sigCount, "recv_kinds": st.recvKinds,
-		"types": len(elemTypes), "workers": nw})
+		"types": len(elemTypes), "workers": nw, "both_deviate": st.bothDev, "both_deviate_examples": st.bothDevEx})
 }
 
 func report(out *vh.Out, st *stats, sig vh.M, detail vh.M) {
@@ -425,6 +466,9 @@ func containerCase(rc *rec, line []byte, mode string, flt *only, out *vh.Out, st
 	ncase, nconc := 0, 0
 	pairs := map[string]bool{}
 	for _, t := range elemTypes {
+		if rc.Sp == "fs" && t.class == "int" {
+			continue // Inf, NaN and -0 exist in the floating point and magic element types only
+		}
 		for _, ak := range aks {
 			for _, bk := range bks {
 				for _, constOp := range []bool{false, true} {
@@ -462,19 +506,26 @@ func containerCase(rc *rec, line []byte, mode string, flt *only, out *vh.Out, st
 					nconc++
 					pairs[fmt.Sprintf("%T.%s/%s", oc.r.obj(), rc.Op, strings.ToUpper(rc.Op))] = true
 					cwhat, cidx := judge(t, rc, conc)
+					differ := !sameOutcome(gen, conc) && !(t.class == "int" && hasSpecial(rc.Exp.C))
+					detail := func(variant string) vh.M {
+						return vh.M{"record": json.RawMessage(line), "type": t.name, "ak": ak, "bk": bk, "const_operands": constOp,
+							"variant": variant, "index": cidx, "expected": rc.Exp, "observed": obsOf(rc, conc),
+							"generic_observed": obsOf(rc, gen)}
+					}
 					switch {
+					case rc.Sp != "" && differ:
+						// special operands: the two variants must produce the same class
+						report(out, st, vh.M{"engine": "containers", "variant": "generic_vs_concrete", "op": rc.Op, "recv": recvClass(rc),
+							"what": classifySpecialDiff(gen, conc), "type": t.name}, detail("generic_vs_concrete"))
+					case rc.Sp != "" && cwhat != "":
+						bothDeviate(st, vh.M{"engine": "containers", "op": rc.Op, "recv": recvClass(rc), "what": cwhat},
+							vh.M{"type": t.name, "ak": ak, "bk": bk, "a": rc.A, "b": rc.B, "s": rc.S, "sf": rc.Sf, "expected": rc.Exp.C, "both": obsOf(rc, conc)})
 					case cwhat != "":
 						report(out, st, vh.M{"engine": "containers", "variant": "concrete", "op": rc.Op, "recv": recvClass(rc),
-							"what": cwhat, "type": t.name},
-							vh.M{"record": json.RawMessage(line), "type": t.name, "ak": ak, "bk": bk, "const_operands": constOp,
-								"variant": "concrete", "index": cidx, "expected": rc.Exp, "observed": obsOf(rc, conc),
-								"generic_observed": obsOf(rc, gen)})
-					case !sameOutcome(gen, conc) && !(t.class == "int" && hasSpecial(rc.Exp.C)):
+							"what": cwhat, "type": t.name}, detail("concrete"))
+					case differ:
 						report(out, st, vh.M{"engine": "containers", "variant": "generic_vs_concrete", "op": rc.Op, "recv": recvClass(rc),
-							"what": "differ", "type": t.name},
-							vh.M{"record": json.RawMessage(line), "type": t.name, "ak": ak, "bk": bk, "const_operands": constOp,
-								"variant": "generic_vs_concrete", "expected": rc.Exp, "observed": obsOf(rc, conc),
-								"generic_observed": obsOf(rc, gen)})
+							"what": "differ", "type": t.name}, detail("generic_vs_concrete"))
 					}
 				}
 			}
